@@ -112,3 +112,125 @@ Section JwtUnforgeable.
     apply (sig_genuine K k0 secret m Hd).
   Qed.
 End JwtUnforgeable.
+
+(* ---- SLOTS: which minted values resolve where ---- *)
+Lemma tk_eq_dec (a b : tk) : {a = b} + {a <> b}.
+Proof. decide equality. Qed.
+
+(* a class handler of the provider resolves, among everything the provider mints (ID Tokens included, whatever
+   keys the handlers share), only the tokens of its own class - and those to the session they were minted for *)
+Lemma handler_info_minted cfg expired h m nonce rnd sid exp x :
+  handler_info cfg expired h (mint cfg m nonce rnd sid exp) = TOk x -> m = MTok h /\ x = Some sid.
+Proof.
+  unfold handler_info, mint. destruct m as [c|].
+  - destruct (tk_eq_dec h c) as [->|N].
+    + destruct (h_of cfg c) as [k|k].
+      * rewrite opaque_resolves. intros H; inversion H; auto.
+      * unfold jwt_info, jwt_token, jwt_payload. cbn [sig_verify]. rewrite Nat.eqb_refl. unfold class_ok. rewrite str_eqb_refl.
+        cbn. destruct (expired exp); intros H; inversion H; auto.
+    + destruct (h_of cfg h) as [k|k], (h_of cfg c) as [k'|k'].
+      * destruct (Nat.eq_dec k k') as [->|Nk].
+        -- rewrite opaque_class_separation by exact N. discriminate.
+        -- rewrite opaque_key_separation by exact Nk. discriminate.
+      * unfold opaque_info, jwt_token. cbn [adec]. discriminate.
+      * unfold jwt_info, opaque_token. cbn [sig_verify]. discriminate.
+      * destruct (Nat.eq_dec k k') as [->|Nk].
+        -- rewrite jwt_class_separation by exact N. discriminate.
+        -- rewrite jwt_foreign_key_refused by exact Nk. discriminate.
+  - destruct (h_of cfg h) as [k|k].
+    + unfold opaque_info, jwt_token. cbn [adec]. discriminate.
+    + destruct (Nat.eq_dec k (h_idt cfg)) as [->|Nk].
+      * rewrite id_token_is_no_access_token. discriminate.
+      * rewrite jwt_foreign_key_refused by exact Nk. discriminate.
+Qed.
+
+Lemma handler_info_own cfg expired c nonce rnd sid exp :
+  expired exp = false -> handler_info cfg expired c (mint cfg (MTok c) nonce rnd sid exp) = TOk (Some sid).
+Proof.
+  intros E. unfold handler_info, mint. destruct (h_of cfg c) as [k|k].
+  - apply opaque_resolves.
+  - now apply jwt_resolves.
+Qed.
+
+(* every slot that asks one class handler is class-separated *)
+Theorem slot_class_separation cfg expired s h m nonce rnd sid exp x :
+  slot_handler s = Some h -> slot_resolve cfg expired s (mint cfg m nonce rnd sid exp) = TOk x -> m = MTok h /\ x = Some sid.
+Proof. unfold slot_resolve. intros ->. apply handler_info_minted. Qed.
+
+(* THE BEARER CLIENT CREDENTIAL: of everything the provider mints, only an access token resolves there *)
+Theorem bearer_only_access cfg expired m nonce rnd sid exp x :
+  slot_resolve cfg expired SBearer (mint cfg m nonce rnd sid exp) = TOk x -> m = MTok KAccess /\ x = Some sid.
+Proof. now apply slot_class_separation. Qed.
+
+Theorem bearer_access_resolves cfg expired nonce rnd sid exp :
+  expired exp = false -> slot_resolve cfg expired SBearer (mint cfg (MTok KAccess) nonce rnd sid exp) = TOk (Some sid).
+Proof. intros E. unfold slot_resolve. cbn [slot_handler]. now apply handler_info_own. Qed.
+
+(* ... and it authenticates the client of the session it was minted for, nobody else *)
+Theorem bearer_client_is_session_client cfg expired db m nonce rnd sid exp client :
+  slot_client cfg expired db SBearer (mint cfg m nonce rnd sid exp) = Some client ->
+  m = MTok KAccess /\ assoc sid db = Some client.
+Proof.
+  unfold slot_client. destruct (slot_resolve cfg expired SBearer (mint cfg m nonce rnd sid exp)) as [x|e] eqn:E; [|discriminate].
+  apply bearer_only_access in E as [-> ->]. auto.
+Qed.
+
+Theorem bearer_access_authenticates cfg expired db nonce rnd sid exp :
+  expired exp = false -> slot_client cfg expired db SBearer (mint cfg (MTok KAccess) nonce rnd sid exp) = assoc sid db.
+Proof. intros E. unfold slot_client. now rewrite bearer_access_resolves. Qed.
+
+(* the class-agnostic lookup (the `token` parameter of introspection / revocation) resolves every class: it must
+   not be what a class slot asks *)
+Lemma not_ok_other cfg expired h c nonce rnd sid exp :
+  h <> c -> is_ok (handler_info cfg expired h (mint cfg (MTok c) nonce rnd sid exp)) = false.
+Proof.
+  intros N. destruct (handler_info cfg expired h (mint cfg (MTok c) nonce rnd sid exp)) as [x|e] eqn:E; [|reflexivity].
+  apply handler_info_minted in E as [E _]. inversion E. congruence.
+Qed.
+Theorem generic_resolves_every_class cfg expired c nonce rnd sid exp :
+  expired exp = false -> slot_resolve cfg expired SGeneric (mint cfg (MTok c) nonce rnd sid exp) = TOk (Some sid).
+Proof.
+  intros E. unfold slot_resolve. cbn [slot_handler]. unfold generic_info.
+  destruct c.
+  - rewrite (handler_info_own cfg expired KCode) by exact E. reflexivity.
+  - rewrite (not_ok_other cfg expired KCode KAccess) by discriminate.
+    rewrite (handler_info_own cfg expired KAccess) by exact E. reflexivity.
+  - rewrite (not_ok_other cfg expired KCode KRefresh) by discriminate.
+    rewrite (not_ok_other cfg expired KAccess KRefresh) by discriminate.
+    rewrite (handler_info_own cfg expired KRefresh) by exact E. reflexivity.
+Qed.
+
+(* an adversary's string at the bearer slot (opaque access handler): accepted only if minted with an access class *)
+Theorem bearer_unforgeable (K : term -> Prop) (k0 : nat) (minted : pystr -> pystr -> Prop) cfg expired t sid :
+  (forall t, K t -> ~ sub (Key k0) t) ->
+  (forall t0 nonce m, K t0 -> sub (AEnc k0 nonce m) t0 ->
+      exists rnd c sid exp, m = Atom (opaque_plain rnd c sid exp) /\ minted c sid) ->
+  h_access cfg = HOpaque k0 ->
+  derivable K t -> slot_resolve cfg expired SBearer t = TOk (Some sid) ->
+  exists c, class_ok KAccess c = true /\ minted c sid /\ exists t0, K t0 /\ sub t t0.
+Proof.
+  intros Hs Hp Hc Hd. unfold slot_resolve, handler_info. cbn [slot_handler h_of]. rewrite Hc.
+  now apply (opaque_unforgeable K k0 Hs minted Hp).
+Qed.
+Theorem bearer_unforgeable_jwt (K : term -> Prop) (k0 : nat) cfg expired t sid :
+  (forall t, K t -> ~ sub (Key k0) t) ->
+  h_access cfg = HJwt k0 ->
+  derivable K t -> slot_resolve cfg expired SBearer t = TOk sid -> exists t0, K t0 /\ sub t t0.
+Proof.
+  intros Hs Hc Hd. unfold slot_resolve, handler_info. cbn [slot_handler h_of]. rewrite Hc.
+  now apply (jwt_unforgeable K k0 Hs).
+Qed.
+
+(* were the bearer slot served by the class-agnostic lookup: a refresh token, a code, an ID Token authenticate *)
+Example bearer_by_generic_lookup_refuted :
+  let cfg := mkHconf (HOpaque 0) (HOpaque 0) (HOpaque 0) 50 in
+  let db := [(PS "sid", PS "client_1")] in
+  let nx := fun _ : pystr => false in
+  slot_client cfg nx db SGeneric (mint cfg (MTok KRefresh) (PS "n") (PS "r") (PS "sid") (PS "99")) = Some (PS "client_1") /\
+  slot_client cfg nx db SGeneric (mint cfg (MTok KCode) (PS "n") (PS "r") (PS "sid") (PS "99")) = Some (PS "client_1") /\
+  slot_client cfg nx db SGeneric (mint cfg MIdToken (PS "n") (PS "r") (PS "sid") (PS "99")) = Some (PS "client_1") /\
+  slot_client cfg nx db SBearer (mint cfg (MTok KRefresh) (PS "n") (PS "r") (PS "sid") (PS "99")) = None /\
+  slot_client cfg nx db SBearer (mint cfg (MTok KCode) (PS "n") (PS "r") (PS "sid") (PS "99")) = None /\
+  slot_client cfg nx db SBearer (mint cfg MIdToken (PS "n") (PS "r") (PS "sid") (PS "99")) = None /\
+  slot_client cfg nx db SBearer (mint cfg (MTok KAccess) (PS "n") (PS "r") (PS "sid") (PS "99")) = Some (PS "client_1").
+Proof. vm_compute. repeat split; reflexivity. Qed.
